@@ -2,6 +2,8 @@
 
 use crate::c02::run_graph;
 use crate::core::*;
+#[allow(unused_imports)]
+use crate::core::StatsExt;
 use crate::gen::{gen_graph, GraphParams};
 use crate::loader::*;
 use crate::model::reachable_cycle;
@@ -506,6 +508,9 @@ impl Prop for C03 {
             out.push(serde_json::to_value(Case { spec: g, chunk: case.chunk }).unwrap());
         }
         out
+    }
+    fn evidence_extra(&self, stats: &Stats) -> Json {
+        crate::core::world_a_extra(stats)
     }
     fn rule(&self) -> String {
         "One run = one generated acyclic @use/@forward graph (1-4 files, canonical or aliased url spellings, 0-2 load paths) in which every module defines $id<i>: unique-id() and $v<i>: 0 and emits a marker rule, and users print and assign module variables through their namespaces; compiled by the real library through SimLoader and judged against a reference executor that runs each module once. Non-trivial = at least one load; distinct = distinct digests of (loader history, output with ids normalised).".into()
